@@ -78,7 +78,7 @@ def confirm(run, family, module, items, env=None, race=False, shards=64):
     outs = []
     for k in (1, 2):
         out = os.path.join(run.dir, "confirm-events-%d-%d.ndjson" % (run.tlc_n, k))
-        run.drive(["one", family], out_path=out, stdin_path=cases, race=race)
+        run.drive(["one", family, "-noearly"], out_path=out, stdin_path=cases, race=race)
         outs.append(out)
     ev1, ev2 = vlib.load_events(outs[0]), vlib.load_events(outs[1])
     if len(ev1) != len(items):
